@@ -129,3 +129,126 @@ Example tx_type_offset :
      = Some (agg_w_version_network_type + agg_w_max_fee + agg_w_deadline + hash256_size)
   /\ option_map (fun o => o + hash256_size - 108) (offset_of sc_schema "AggregateBondedTransactionV2" "transactions_hash") = Some 52.
 Proof. vm_compute. repeat split. Qed.
+
+(* ---- non-vacuity of the member-classification premises, on members of the SHIPPED schemas (regenerated from the .cats files) ----
+   ex_knot tm k is the record of element codecs of the interpreter at nesting fuel k; ex_struct / ex_field / ex_array_of pick a struct,
+   a member and its array descriptor out of a schema (with dummies when absent, which the Examples below would not survive). *)
+
+Definition ex_knot (tm : list decl) (k : nat) : rec_ops :=
+  {| enc_t := enc ops_now tm k; size_t := size ops_now tm k; dec_t := dec ops_now tm k; decf_t := decf ops_now tm k; key_t := key ops_now tm k |}.
+Definition ex_struct (tm : list decl) (n : string) : struct :=
+  match lookup_struct tm n with
+  | Some s => s
+  | None => {| s_name := ""; s_disp := SdNone; s_fields := []; s_factory_type := None; s_attrs := None; s_comment := None; s_requires_unaligned := false |}
+  end.
+Definition ex_field (s : struct) (n : string) : field :=
+  match find_field (s_fields s) n with Some f => f | None => InlinePlaceholder "" None end.
+Definition ex_array_of (f : field) : array :=
+  match f_array f with
+  | Some a => a
+  | None => {| a_elem := ElName ""; a_size := SzFill; a_sort_key := None; a_byte_constrained := false; a_alignment := None; a_last_padded := None |}
+  end.
+Definition u32 : intty := {| it_unsigned := true; it_size := 4; it_sizeref := None |}.
+
+Example member_premises_nonvacuous :
+  (* int_le, enc_struct_concat: Symbol ReceiptSource { primary_id = uint32, secondary_id = uint32 } *)
+  (let s := ex_struct sc_schema "ReceiptSource" in let allfs := struct_fields_nc s in let f := ex_field s "secondary_id" in
+   let self := VStruct "ReceiptSource" [("primary_id", VInt 1); ("secondary_id", VInt 2)] in
+   plain_member allfs f /\ f_type f = FInt u32 /\ vget self (f_name f) = Some (VInt 2)
+   /\ serialize_field ops_now sc_schema (ex_knot sc_schema 3) s allfs 8 self false f = Ok [2; 0; 0; 0]
+   /\ allfs = [ex_field s "primary_id"] ++ f :: []
+   /\ serialize_fields_go ops_now sc_schema (ex_knot sc_schema 3) s allfs 8 self false allfs = Ok [1; 0; 0; 0; 2; 0; 0; 0]
+   /\ In f (own_fields sc_schema s))
+  (* count_is_length, bytes_length_is_size, size_prefix_is_total, reserved_is_constant, reserved_checked_on_read: Symbol TransferTransactionV1 *)
+  /\ (let s := ex_struct sc_schema "TransferTransactionV1" in let allfs := struct_fields_nc s in
+      let self := VStruct "TransferTransactionV1" [("mosaics", VArr [VNull; VNull]); ("message", VBytes [1; 2; 3])] in
+      (let f := ex_field s "mosaics_count" in let g := ex_field s "mosaics" in
+       f_cond f = None /\ bound_field allfs f = Some g /\ (exists i, f_type f = FInt i) /\ f_array g = Some (ex_array_of g)
+       /\ (ends_with_count (f_name f) || negb (a_byte_constrained (ex_array_of g)) = true) /\ vget self (f_name g) = Some (VArr [VNull; VNull])
+       /\ serialize_field ops_now sc_schema (ex_knot sc_schema 3) s allfs 0 self false f = Ok [2])
+      /\ (let f := ex_field s "message_size" in let g := ex_field s "message" in
+          f_cond f = None /\ bound_field allfs f = Some g /\ (exists i, f_type f = FInt i) /\ f_array g = Some (ex_array_of g)
+          /\ (ends_with_count (f_name f) || negb (a_byte_constrained (ex_array_of g)) = true) /\ vget self (f_name g) = Some (VBytes [1; 2; 3])
+          /\ serialize_field ops_now sc_schema (ex_knot sc_schema 3) s allfs 0 self false f = Ok [3; 0])
+      /\ (let f := ex_field s "size" in is_size_first s [f] f = true /\ f_type f = FInt u32
+          /\ serialize_field ops_now sc_schema (ex_knot sc_schema 3) s allfs 177 self true f = Ok [177; 0; 0; 0])
+      /\ (let f := ex_field s "verifiable_entity_header_reserved_1" in
+          f_cond f = None /\ bound_field allfs f = None /\ is_computed f = false /\ is_reserved f = true /\ f_type f = FInt u32 /\ f_value f = VNum 0
+          /\ py_from_bytes (Z.to_nat (it_size u32)) (negb (it_unsigned u32)) [1; 0; 0; 0] <> 0))
+  (* bytesize_is_size: Symbol aggregate, payload_size measures the byte-constrained array `transactions` *)
+  /\ (let s := ex_struct sc_schema "AggregateCompleteTransactionV2" in let allfs := struct_fields_nc s in
+      let f := ex_field s "payload_size" in let g := ex_field s "transactions" in
+      f_cond f = None /\ bound_field allfs f = Some g /\ f_type f = FInt u32 /\ f_array g = Some (ex_array_of g)
+      /\ (ends_with_count (f_name f) || negb (a_byte_constrained (ex_array_of g)) = false))
+  (* sizeof_is_size: NEM SizePrefixedMosaicProperty, property_size = sizeof(property) *)
+  /\ (let s := ex_struct nc_schema "SizePrefixedMosaicProperty" in let allfs := struct_fields_nc s in
+      let f := ex_field s "property_size" in let g := ex_field s "property" in
+      f_cond f = None /\ bound_field allfs f = Some g /\ f_type f = FInt u32 /\ f_array g = None /\ is_sizeof f = true)
+  (* conditional_present_iff: NEM TransferTransactionV1, `message = Message if 0 not equals message_envelope_size` *)
+  /\ (let s := ex_struct nc_schema "TransferTransactionV1" in let allfs := struct_fields_nc s in let f := ex_field s "message" in
+      let msg := VStruct "Message" [("message_type", VInt 1); ("message", VBytes [7; 8])] in
+      (is_size_first s [f] f = false
+       /\ cond_self nc_schema (ex_knot nc_schema 3) allfs (VStruct "TransferTransactionV1" [("message", VNull)]) f = Ok false)
+      /\ (cond_self nc_schema (ex_knot nc_schema 3) allfs (VStruct "TransferTransactionV1" [("message", msg)]) f = Ok true
+          /\ bound_field allfs f = None /\ f_type f = FName "Message" /\ is_reserved f = false
+          /\ vget (VStruct "TransferTransactionV1" [("message", msg)]) (f_name f) = Some msg /\ msg <> VNull)).
+Proof.
+  vm_compute. repeat split; try reflexivity; try discriminate; try (eexists; reflexivity). auto.
+Qed.
+Print Assumptions member_premises_nonvacuous.
+
+(* ---- non-vacuity of the array laws (array_size_is_length, padding_zero_to_alignment, aligned_array_roundtrip) on shipped arrays:
+   the element round-trip premise is discharged, for the admissibility predicates admf / adm of C01, by the C01 theorems themselves
+   (RT_decf for the abstract element type EmbeddedTransaction, RT_dec for UnresolvedMosaic) ---- *)
+From Symv Require Import Cats.StructProofs Cats.StructRoundTrip Cats.StructDecide.
+
+Definition ex_embedded (k : Z) : value :=
+  VStruct "EmbeddedHashLockTransactionV1"
+    [("signer_public_key", VBytes (repeat k 32)); ("version", VInt 1); ("network", VInt 152); ("type", VInt 16712);
+     ("mosaic", VStruct "UnresolvedMosaic" [("mosaic_id", VInt 5); ("amount", VInt k)]); ("duration", VInt 1); ("hash", VBytes (repeat 9 32))].
+Definition ex_embedded_transfer : value :=
+  VStruct "EmbeddedTransferTransactionV1"
+    [("signer_public_key", VBytes (repeat 3 32)); ("version", VInt 1); ("network", VInt 152); ("type", VInt 16724);
+     ("recipient_address", VBytes (repeat 4 24)); ("mosaics", VArr []); ("message", VBytes [1; 2; 3])].
+Definition ex_transactions : array := ex_array_of (ex_field (ex_struct sc_schema "AggregateCompleteTransactionV2") "transactions").
+Definition ex_mosaics_arr : array := ex_array_of (ex_field (ex_struct sc_schema "TransferTransactionV1") "mosaics").
+Definition ex_mosaic (id amount : Z) : value := VStruct "UnresolvedMosaic" [("mosaic_id", VInt id); ("amount", VInt amount)].
+
+Example array_premises_nonvacuous :
+  (* aligned variable-size array (padding_zero_to_alignment, aligned_array_roundtrip): the embedded transactions of a Symbol aggregate *)
+  (0 < alignment_of ex_transactions
+   /\ (forall e be rest, admf sc_schema 3 "EmbeddedTransaction" e -> elem_enc (ex_knot sc_schema 7) ex_transactions e = Ok be ->
+         elem_dec sc_schema (ex_knot sc_schema 7) ex_transactions (be ++ rest) = Ok e
+         /\ elem_size (ex_knot sc_schema 7) ex_transactions e = Ok (Z.of_nat (length be)) /\ (0 < length be)%nat)
+   /\ Forall (admf sc_schema 3 "EmbeddedTransaction") [ex_embedded_transfer; ex_embedded 2]
+   /\ match write_variable ops_now (ex_knot sc_schema 7) ex_transactions [ex_embedded_transfer; ex_embedded 2] with
+      | Ok b => length b = (83 + 5 + 104)%nat   (* 83 bytes + 5 bytes of padding, then 104 bytes *)
+      | _ => False
+      end)
+  (* plain counted array (array_size_is_length): the mosaics of a Symbol transfer *)
+  /\ ((forall e be rest, adm sc_schema 1 "UnresolvedMosaic" e -> elem_enc (ex_knot sc_schema 3) ex_mosaics_arr e = Ok be ->
+         elem_dec sc_schema (ex_knot sc_schema 3) ex_mosaics_arr (be ++ rest) = Ok e
+         /\ elem_size (ex_knot sc_schema 3) ex_mosaics_arr e = Ok (Z.of_nat (length be)) /\ (0 < length be)%nat)
+      /\ Forall (adm sc_schema 1 "UnresolvedMosaic") [ex_mosaic 1 5; ex_mosaic 2 6]
+      /\ match write_array_go ops_now sc_schema (ex_knot sc_schema 3) ex_mosaics_arr None [ex_mosaic 1 5; ex_mosaic 2 6] 2 with
+         | Ok b => length b = 32%nat
+         | _ => False
+         end).
+Proof.
+  split; [split; [vm_compute; reflexivity|split; [|split]]|split; [|split]].
+  - intros e be rest Ha He.
+    change (elem_enc (ex_knot sc_schema 7) ex_transactions e) with (enc ops_now sc_schema 7 "EmbeddedTransaction" e) in He.
+    change (elem_dec sc_schema (ex_knot sc_schema 7) ex_transactions (be ++ rest)) with (decf ops_now sc_schema 7 "EmbeddedTransaction" (be ++ rest)).
+    change (elem_size (ex_knot sc_schema 7) ex_transactions e) with (size ops_now sc_schema 7 "EmbeddedTransaction" e).
+    exact (RT_decf sc_schema 3 7 "EmbeddedTransaction" e be rest (le_n 7) Ha eq_refl He).
+  - apply Forall_cons; [|apply Forall_cons; [|apply Forall_nil]]; apply admfb_sound; vm_compute; reflexivity.
+  - vm_compute. reflexivity.
+  - intros e be rest Ha He.
+    change (elem_enc (ex_knot sc_schema 3) ex_mosaics_arr e) with (enc ops_now sc_schema 3 "UnresolvedMosaic" e) in He.
+    change (elem_dec sc_schema (ex_knot sc_schema 3) ex_mosaics_arr (be ++ rest)) with (dec ops_now sc_schema 3 "UnresolvedMosaic" (be ++ rest)).
+    change (elem_size (ex_knot sc_schema 3) ex_mosaics_arr e) with (size ops_now sc_schema 3 "UnresolvedMosaic" e).
+    exact (RT_dec sc_schema 1 3 "UnresolvedMosaic" e be rest (le_n 3) Ha He).
+  - apply Forall_cons; [|apply Forall_cons; [|apply Forall_nil]]; apply admb_sound; vm_compute; reflexivity.
+  - vm_compute. reflexivity.
+Qed.
+Print Assumptions array_premises_nonvacuous.
